@@ -20,7 +20,7 @@ import (
 // the accessor methods of reflect.Value only. A call of anything else on the way (strings.ToValidUTF8, ToLower,
 // TrimSpace, a normalising helper, ...) is reported with the call.
 func literalVerbatim(x *Ctx) {
-	for _, name := range []string{"pkg/policy/literal.Any", "pkg/policy/literal.anyAssemble"} {
+	for _, name := range []string{"pkg/policy/literal.Any", "pkg/policy/literal.anyAssemble", "pkg/policy/literal.LinkCid"} {
 		f := x.fn("C10.R4", name)
 		if f == nil {
 			continue
@@ -72,13 +72,21 @@ func literalVerbatim(x *Ctx) {
 						switch {
 						case pp == "github.com/ipld/go-ipld-prime/node/basicnode" && strings.HasPrefix(h.Name(), "New") && len(cm.Args) == 1:
 							switch h.Name() {
-							case "NewString", "NewBytes", "NewBool", "NewInt", "NewFloat":
+							case "NewString", "NewBytes", "NewBool", "NewInt", "NewFloat", "NewLink":
 								arg, what = cm.Args[0], "basicnode."+h.Name()
 							}
 						case pp == "github.com/ipld/go-ipld-prime/fluent/qp" && len(cm.Args) == 1:
 							switch h.Name() {
-							case "String", "Bytes", "Bool", "Int", "Float":
+							case "String", "Bytes", "Bool", "Int", "Float", "Link":
 								arg, what = cm.Args[0], "qp."+h.Name()
+							}
+						}
+					} else if u, ok := cm.Value.(*ssa.UnOp); ok && len(cm.Args) == 1 {
+						// the package's own aliases of the node constructors (var Link = basicnode.NewLink, ...)
+						if gl, ok := u.X.(*ssa.Global); ok && gl.Pkg != nil && gl.Pkg.Pkg.Path() == load.Module+"/pkg/policy/literal" {
+							switch gl.Name() {
+							case "String", "Bytes", "Bool", "Int", "Float", "Link":
+								arg, what = cm.Args[0], "literal."+gl.Name()
 							}
 						}
 					}
@@ -108,6 +116,9 @@ func literalVerbatim(x *Ctx) {
 						continue
 					}
 					ts := u.Type().String()
+					if _, isFunc := u.Type().Underlying().(*types.Signature); isFunc {
+						continue // an alias of a constructor (var Link = basicnode.NewLink), not a node
+					}
 					if strings.HasSuffix(ts, "datamodel.Node") || strings.HasSuffix(ts, "ipld.Node") || strings.Contains(ts, "basicnode.") {
 						if internedExactly(x, gl, u) {
 							continue
@@ -178,6 +189,27 @@ func impureStep(x *Ctx, v ssa.Value, seen map[ssa.Value]bool, depth int) string 
 		if a, ok := t.X.(*ssa.Alloc); ok {
 			for _, r := range *a.Referrers() {
 				if st, ok := r.(*ssa.Store); ok && st.Addr == ssa.Value(a) {
+					if w := impureStep(x, st.Val, seen, depth+1); w != "" {
+						return w
+					}
+				}
+				// a local struct filled field by field (cidlink.Link{Cid: c})
+				if fa, ok := r.(*ssa.FieldAddr); ok {
+					for _, r2 := range *fa.Referrers() {
+						if st, ok := r2.(*ssa.Store); ok && st.Addr == ssa.Value(fa) {
+							if w := impureStep(x, st.Val, seen, depth+1); w != "" {
+								return w
+							}
+						}
+					}
+				}
+			}
+			return ""
+		}
+		if fv, ok := t.X.(*ssa.FreeVar); ok {
+			// a captured variable assigned inside the literal: what is stored there counts
+			for _, r := range *fv.Referrers() {
+				if st, ok := r.(*ssa.Store); ok && st.Addr == ssa.Value(fv) {
 					if w := impureStep(x, st.Val, seen, depth+1); w != "" {
 						return w
 					}
